@@ -5,6 +5,7 @@ deterministic world (only Thread.start/join of that class are redirected to the 
 created by a real ``Cluster(idle_heartbeat_interval=I, idle_heartbeat_timeout=T)`` over its real
 pools and control connection, or constructed directly over small holder objects with real
 handshaken connections.  Round by round the scenario makes connections busy or leaves them idle
+(ordinary traffic, or only the late answer to a request that timed out client-side and left an orphaned stream id)
 and lets the node answer the heartbeat OPTIONS at once / late but within the timeout (staggered
 fractions of the timeout over the connections of one round) / with an ERROR / with an unexpected
 message / not at all, or closes the connection underneath.  What the node received per
@@ -91,7 +92,7 @@ def run_history(seed, quick):
     from sim.env import SimEnv
     from sim import world as W
     from sim import s5_handshake as H
-    from sim.scen import uid_query
+    from sim.scen import uid_query, uid_of
     from spec import frames as F
     from cassandra.connection import ConnectionHeartbeat, DefaultEndPoint
     from cassandra.protocol import OptionsMessage, QueryMessage
@@ -107,6 +108,11 @@ def run_history(seed, quick):
     rounds = rng.randint(3, 7)
     calm = rng.random() < 0.45           # no traffic / deaths between rounds: every connection is idle in every round after the first
     p_slow_round = rng.choice([0.0, 0.3, 0.6, 0.9])
+    # cluster histories of this flavour have no ordinary traffic; instead requests time out client-side (their stream ids become orphans)
+    # and the server's late answers - the only frames of their interval on that connection - arrive one interval later
+    late_flavour = mode == 'cluster' and rng.random() < 0.4
+    if late_flavour:
+        calm = True
     ch = W.RandomChooser(random.Random(seed * 7 + 3), p_time=0.0, p_preempt=rng.choice([0.0, 0.1, 0.25]))
     addrs = ['127.0.0.%d' % (i + 1) for i in range(nnodes)]
     env = SimEnv(ch, addresses=addrs, max_steps=250000)
@@ -116,7 +122,11 @@ def run_history(seed, quick):
     probing = set()      # connections on which the scenario itself is sending a request right now
     windows = []         # (A, B) of every judged round
 
+    hold_uids = set()    # requests whose answer the server keeps back until the scenario releases it
+
     def behaviour(node, cstate, req):
+        if req['op'] == 'QUERY' and uid_of(req.get('query')) in hold_uids:
+            return ('hold', node.void(cstate, req)[1])
         if req['op'] == 'OPTIONS' and cstate.ready:
             cid = cstate.conn.sim_id
             if cid in probing:
@@ -141,7 +151,7 @@ def run_history(seed, quick):
     viol = []
     stats = {'rounds': 0, 'conn_rounds': 0, 'idle_ok': 0, 'busy': 0, 'failed': 0, 'silent': 0, 'closed_underneath': 0, 'dead_found': 0,
              'capacity_checks': 0, 'return_calls_seen': 0, 'heartbeats_at_node': 0, 'control_rounds': 0, 'pool_rounds': 0, 'replaced_seen': 0,
-             'raced_close': 0, 'collateral': 0, 'owner_still_lists': 0, 'ambiguous': 0, 'slow_ok': 0, 'rounds_3_slow': 0}
+             'raced_close': 0, 'collateral': 0, 'owner_still_lists': 0, 'ambiguous': 0, 'slow_ok': 0, 'rounds_3_slow': 0, 'late_answers': 0, 'requests_left_to_time_out': 0, 'busy_by_late_answer_only': 0}
     ret_log = []         # (owner, conn, t)
 
     def wrap_owner(o):
@@ -271,6 +281,8 @@ def run_history(seed, quick):
                     continue
                 if r['busy']:
                     stats['busy'] += 1
+                    if late_flavour and cid in last_B_trace:
+                        stats['busy_by_late_answer_only'] += 1      # no other traffic exists in these histories
                     if n_opt:
                         viol.append(('heartbeat-sent-on-busy-connection', '%s: the connection received frames during the interval but %d OPTIONS arrived' % (tag, n_opt)))
                     elif snapshot(c) != r['snap'] and not (c.is_closed or c.is_defunct):
@@ -339,6 +351,23 @@ def run_history(seed, quick):
             # ---------------- between the rounds: traffic, silent deaths, replacements
             world.preempt = True
             world.advance_to(tk + 0.6 * I)
+            if late_flavour and session is not None and not cluster.is_shutdown:
+                # first the late answers to the requests that timed out in the previous interval, then new requests that will time out
+                for h in [h for h in env.net.held if not h.done]:
+                    if not h.conn.is_closed:
+                        stats['late_answers'] += 1
+                    h.release()
+                world.settle(advance=False)
+                if k < rounds - 1:
+                    for _ in range(rng.choice([1, 1, 2, 3])):
+                        uid[0] += 1
+                        hold_uids.add(uid[0])
+                        try:
+                            session.execute_async(uid_query(uid[0]), timeout=0.1 * I)
+                            stats['requests_left_to_time_out'] += 1
+                        except Exception:       # noqa
+                            pass
+                    world.settle(advance=False)
             if calm:
                 world.preempt = False
                 continue
@@ -461,7 +490,9 @@ def run(ctx):
                          ('replaced_seen', 'replacement_connections_seen'), ('collateral', 'connections_closed_by_owner_for_a_sibling_failure'),
                          ('owner_still_lists', 'failed_connections_still_listed_by_notified_owner'),
                          ('ambiguous', 'connections_born_during_a_round_not_judged'), ('slow_ok', 'heartbeats_answered_late_within_timeout'),
-                         ('rounds_3_slow', 'rounds_with_3_or_more_staggered_late_answers')):
+                         ('rounds_3_slow', 'rounds_with_3_or_more_staggered_late_answers'),
+                         ('late_answers', 'late_answers_to_timed_out_requests_delivered'),
+                         ('busy_by_late_answer_only', 'connection_rounds_busy_only_by_a_late_answer_to_an_orphaned_request')):
             ctx.count(name, st[k_])
         if harness and not viol:
             raise Inconclusive("harness error in history seed %d: %r" % (seed, harness[:2]))
@@ -481,4 +512,5 @@ def run(ctx):
                           "heartbeats_unanswered": 20 * k, "connections_closed_at_the_round": 20 * k, "dead_connections_found_by_heartbeat": 10 * k,
                           "capacity_conservation_checks": 500 * k, "control_connection_rounds": 100 * k, "histories_cluster": 40 * k,
                           "histories_holders": 40 * k, "heartbeats_answered_late_within_timeout": 150 * k,
-                          "rounds_with_3_or_more_staggered_late_answers": 20 * k}
+                          "rounds_with_3_or_more_staggered_late_answers": 20 * k,
+                          "connection_rounds_busy_only_by_a_late_answer_to_an_orphaned_request": 40 * k}
